@@ -199,6 +199,7 @@ TRANSFER = {
     "C05": [("rsi_rust", "Rsi"), ("myrsi_rust", "MyRSI")],
     "C11": [("superSmoother_rust", "SuperSmoother"), ("roofing_rust", "RoofingFilter")],
     "C13": [("welfordRolling_rust", "WelfordRolling")],
+    "C14": [("add_rust", "Add"), ("sub_rust", "Subtract"), ("mul_rust", "Multiply"), ("div_rust", "Divide"), ("tanh_rust", "Tanh")],
 }
 # a generated view that embeds another generated view (its tie file imports the other's generated file)
 TIE_DEPENDS = {"Vst": ["WelfordOnline"], "Vsct": ["WelfordOnline"], "RoofingFilter": ["SuperSmoother"]}
